@@ -181,6 +181,13 @@ impl Sweep for Replies {
                 judge(input, &[long.clone(), good.clone(), good.clone()], ctx);
                 judge_sub(input, &[long, good.clone(), good.clone()], ctx);
             }
+            // fields within 255 characters but beyond 255 bytes; numbers between the last Integer and the next whole number
+            for r in ["é".repeat(150), "ü".repeat(255), "日".repeat(200), format!("\"{}\",5", "é".repeat(200)), format!("5,\"{}\"", "é".repeat(200)), "é".repeat(256)] {
+                judge(input, &[r, good.clone(), good.clone()], ctx);
+            }
+            for r in ["32767.5", "3.27679E4", "32767.99", "-32768.5", "-32768.9", "-32767.5", "32766.5", "32767.5,ok", "ok,32767.5", "32767.5,a,32767.5", "1,32767.9"] {
+                judge(input, &[r.to_string(), good.clone(), good.clone()], ctx);
+            }
             judge_sub(input, &[String::new(), good.clone(), good.clone()], ctx);
             judge_sub(input, &[good.clone(), good.clone()], ctx);
             for r in ["x,2", "70000,\"a,b\",5", "1,x", "x", "1,2,3", "40000", "5,ok", "\"a,b\",5", ",", "5,,6", "&HD", "1E39,1"] {
